@@ -35,7 +35,7 @@ TECHNIQUE = ("Hypothesis-generated fault/event scenarios (faults and events anch
              "over posts, wire attempts and deliveries")
 RULE = ("A scenario = method, engine events (absolute or anchored at the n-th entry into a runner state), <=3 outages, "
         "<=4 (thorough <=8) per-attempt faults (lost / ack-lost / latency 0..2 s, absolute or anchored attempt index), <=5 connect "
-        "outcomes, <=5 back-off draws, default latency, tick phase. Non-trivial = the runner entered Failed while an engine run was active, >=1 message "
+        "outcomes, <=5 back-off draws, default latency, tick phase. One scenario in 12 (thorough 8) is of the family 'long outage': a 300-900 s (thorough 1800 s) outage during a run that stops late in the outage, so that several hundred messages are buffered (>200 before the stop), with 1-3 failures at chosen positions (1..400) of the catch-up batches. Non-trivial = the runner entered Failed while an engine run was active, >=1 message "
         "was buffered and the scenario ended settled (so every clause was judged). Distinct = distinct scenario JSON.")
 ASSUMPTIONS = [
     "one connection is a FIFO stream (fastapi_websocket_rpc handles requests sequentially); a lost request/response means the "
@@ -55,8 +55,8 @@ ASSUMPTIONS = [
     "failed attempts are re-queued",
 ]
 TIERS = {
-    "quick": {"examples": 1600, "budget_s": 150, "max_runs": 2, "max_faults": 4},
-    "thorough": {"examples": 24000, "budget_s": 1400, "max_runs": 4, "max_faults": 8, "long": True},
+    "quick": {"examples": 1600, "budget_s": 240, "max_runs": 2, "max_faults": 4, "long_every": 12, "long_len": 900.0},
+    "thorough": {"examples": 20000, "budget_s": 1400, "max_runs": 4, "max_faults": 8, "long": True, "long_every": 8, "long_len": 1800.0},
 }
 
 # Known defect (see the report / known_findings): several concurrent _set_state("Failed") calls orphan buffer_messages tasks
@@ -78,7 +78,47 @@ def _r(x, nd=2):
 
 
 @st.composite
-def scenarios(draw, max_runs=2, max_faults=4, long=False):
+def long_outage_scenarios(draw, max_len=900.0):
+    """Family 'long outage': minutes of virtual time without network while a run is active, so that several hundred messages
+    are buffered (buffer_messages adds 2-3 per 5 s, engine events more); the run stops late in the outage (its stop notification
+    sits behind hundreds of buffered messages); the catch-up after the outage is hit by one or two further connection failures at
+    a chosen position of the batch."""
+    method = draw(st.sampled_from(["plain", "block", "watch", "plain"]))
+    t_start = draw(st.sampled_from([0.5, 1.0, 2.0]))
+    a = _r(t_start + draw(st.sampled_from([0.5, 1.5, 4.0])))
+    length = draw(st.sampled_from([300.0, 600.0, 600.0, max_len]))
+    b = _r(a + length)
+    engine = [["abs", t_start, "start", None]]
+    for _ in range(draw(st.integers(0, 3))):
+        engine.append(["abs", _r(a + length * draw(st.sampled_from([0.1, 0.3, 0.5]))), draw(st.sampled_from(["in", "pause", "unpause"])),
+                       draw(st.sampled_from([0.0, 7.0, 12.0]))])
+    t_stop = _r(a + length * draw(st.sampled_from([0.5, 0.8, 0.9, 0.95, 0.99])))
+    engine.append(["abs", t_stop, draw(st.sampled_from(["stop", "stop", "restart"])), None])
+    if draw(st.booleans()):
+        engine.append(["abs", _r(t_stop + draw(st.sampled_from([1.0, 10.0]))), "start", None])
+    if draw(st.integers(0, 3)) == 0:
+        engine.append(["CatchingUp#1", draw(st.sampled_from([0.0, 0.1, 0.3])), draw(st.sampled_from(["stop", "start"])), None])
+    faults = [["CatchingUp#1", draw(st.sampled_from([1, 2, 3, 10, 40, 100, 150, 199, 200, 201, 202, 250, 400])),
+               draw(st.sampled_from(["lost", "lost", "acklost"])), draw(st.sampled_from([0.0, 0.01, 0.05]))]]
+    for _ in range(draw(st.integers(0, 2))):
+        faults.append([draw(st.sampled_from(["CatchingUp#2", "CatchingUp#2", "CatchingUp#3", "Reconnected#1"])),
+                       draw(st.sampled_from([0, 1, 2, 10, 60, 150, 201, 300])),
+                       draw(st.sampled_from(["lost", "acklost", "ok"])), draw(st.sampled_from([0.0, 0.01, 0.3]))])
+    outages = [[a, b]]
+    if draw(st.integers(0, 3)) == 0:
+        outages.append([_r(b + draw(st.sampled_from([0.7, 1.2, 3.0]))), _r(b + 4.0)])
+    conn = [[draw(st.sampled_from(["ok", "ok", "fail", "fail_ws"])), draw(st.sampled_from([0.0, 0.05, 0.3]))]
+            for _ in range(draw(st.integers(0, 3)))]
+    backoff = [draw(st.sampled_from([0.5, 3.0, 10.0])) for _ in range(draw(st.integers(0, 3)))]
+    return {"method": method, "engine": engine, "dur": _r(b + 6.0), "outages": outages, "faults": faults, "conn": conn,
+            "backoff": backoff, "lat": draw(st.sampled_from([0.0, 0.01, 0.01, 0.05])), "phase": draw(st.sampled_from([0.0, 0.03])),
+            "tick": draw(st.sampled_from([0.5, 0.5, 0.1]))}
+
+
+@st.composite
+def scenarios(draw, max_runs=2, max_faults=4, long=False, long_every=12, long_len=900.0):
+    if draw(st.integers(0, long_every - 1)) == 0:
+        return draw(long_outage_scenarios(max_len=long_len))
     method = draw(st.sampled_from(METHOD_NAMES))
     engine = []
     t = draw(st.sampled_from([0.2, 0.5, 1.0, 2.0]))
@@ -137,21 +177,21 @@ def _anchor_ok(a):
 def _valid(c) -> bool:
     if not isinstance(c, dict):
         return False
-    if c.get("method") not in METHOD_NAMES or not _num(c.get("dur"), 0.5, 200) or not _num(c.get("lat", 0.01), 0, 2) \
-            or not _num(c.get("phase", 0.0), 0, 0.0999):
+    if c.get("method") not in METHOD_NAMES or not _num(c.get("dur"), 0.5, 5000) or not _num(c.get("lat", 0.01), 0, 2) \
+            or not _num(c.get("phase", 0.0), 0, 0.0999) or not _num(c.get("tick", 0.1), 0.1, 1.0):
         return False
     for key in ("engine", "outages", "faults", "conn", "backoff"):
         if not isinstance(c.get(key, []), list):
             return False
     for e in c.get("engine", []):
-        if not (isinstance(e, list) and len(e) == 4 and _anchor_ok(e[0]) and _num(e[1], 0, 200) and e[2] in EVENT_KINDS):
+        if not (isinstance(e, list) and len(e) == 4 and _anchor_ok(e[0]) and _num(e[1], 0, 5000) and e[2] in EVENT_KINDS):
             return False
         if e[2] == "in" and not _num(e[3], -1000, 1000):
             return False
         if e[0] == "abs" and e[1] > c["dur"]:
             return False
     for o in c.get("outages", []):
-        if not (isinstance(o, list) and len(o) == 2 and _num(o[0], 0, c["dur"]) and _num(o[1], 0, 400) and o[0] < o[1]):
+        if not (isinstance(o, list) and len(o) == 2 and _num(o[0], 0, c["dur"]) and _num(o[1], 0, 6000) and o[0] < o[1]):
             return False
     for f in c.get("faults", []):
         if not (isinstance(f, list) and len(f) == 4 and _anchor_ok(f[0]) and isinstance(f[1], int) and not isinstance(f[1], bool)
@@ -252,6 +292,14 @@ def judge(tr: dict, neutralised: bool):
                 continue
             orphan = fb[3] == "orphan_buffer_task" and fb[2] not in ("Failed", "Disconnected", "Reconnecting")
             mech = "stop-%s-in-%s" % ("posted" if sp["via"] == "post" else sp["via"], sp["state"])
+            sb = first_buf.get(ms)
+            n_tb = sum(1 for b in tr["buffered"] if b[1] == mt)
+            if sp["state"] in ("Failed", "Disconnected", "Reconnecting") and sb is not None and sb[0] >= fb[0] and n_tb >= 2 \
+                    and last_buf[mt][0] > sb[0] and any(
+                    a["m"] == ms and a["t_send"] >= last_buf[mt][0] for a in tr["attempts"]):
+                # the stop was produced while disconnected, so both were in the buffer in the right order; the tags message failed
+                # on resend and was put back BEHIND the stop, which was still waiting in the buffer (first sent only afterwards)
+                mech = "failed-resend-requeued-behind-waiting-stop"
             sig = ("orphan-buffer-task:stop-overtakes-buffered-run-data" if orphan
                    else "order:stop-overtakes-buffered-run-data:%s" % mech)
             viol(sig, "run %s: TagsUpdatedMsg #%d was buffered at t=%.2f (%s) before RunStoppedMsg #%d was produced at t=%.2f in state %s, "
@@ -329,6 +377,27 @@ def _classes(case, tr, info):
         if any(p["via"] == "post" and p["state"] == st_name and p["type"] in ("RunStartedMsg", "RunStoppedMsg", "WebPushNotificationMsg")
                for p in tr["posts"]):
             cl.append("engine-event-posted-while-%s" % st_name)
+    if case.get("dur", 0) > 250:
+        cl.append("family:long-outage")
+    # approximate buffer fill: buffered events since the runner was last steady
+    steady_t = [s[0] for s in tr["states"] if s[2] in ("Connected", "Reconnected")]
+    stop_ms = {p["m"] for p in tr["posts"] if p["type"] == "RunStoppedMsg"}
+    fill, k, big, stop_deep = 0, 0, False, False
+    for b in tr["buffered"]:
+        while k < len(steady_t) and steady_t[k] <= b[0]:
+            k += 1
+            fill = 0
+        fill += 1
+        if fill > 200:
+            big = True
+            if b[1] in stop_ms:
+                stop_deep = True
+    if big:
+        cl.append("buffer>200")
+        if any(s[1] == "CatchingUp" and s[2] == "Failed" for s in tr["states"]):
+            cl.append("buffer>200+failure-during-catch-up")
+    if stop_deep:
+        cl.append("run-stop-buffered-behind>200")
     if any(s[1] == "CatchingUp" and s[2] == "Failed" for s in tr["states"]):
         cl.append("failure-during-catch-up")
     if "Reconnected" in st_new:
@@ -399,5 +468,6 @@ def run_shard(col, cfg):
         col.count("virtual_seconds", int(tr["end"]["t"]))
         col.count("messages_judged", info["judged"])
         col.record(case, _nontrivial(tr, info), classes=_classes(case, tr, info), violations=vs, sample=_sample(case, tr))
-    strat = scenarios(max_runs=cfg.get("max_runs", 2), max_faults=cfg.get("max_faults", 4), long=cfg.get("long", False))
+    strat = scenarios(max_runs=cfg.get("max_runs", 2), max_faults=cfg.get("max_faults", 4), long=cfg.get("long", False),
+                      long_every=cfg.get("long_every", 12), long_len=cfg.get("long_len", 900.0))
     hyp_run(strat, body, max(1, cfg["examples"] // col.nshards), shard_seed(col.seed, col.shard), col)
